@@ -94,7 +94,11 @@ def run_unit(u, desc, tier, seed):
     smt.INPROC = True
     f = Field(['dummy'], naux=0)
     for (no, cc) in desc['settings']:
-        s = sgmod.sg(sgno=no, cell_choice=cc)
+        if no in RHOMB:
+            # history independence: the other setting of an R-centred group is requested first in this process
+            structure.multiplicity([0.1, 0.2, 0.3], sgno=no, cell_choice=('standard' if cc == 'rhombohedral' else 'rhombohedral'))
+        s = getattr(__import__('xfab.sglib', fromlist=['x']), 'Sg%d' % no)(cell_choice=cc)     # fresh table for the oracle (not through sg.sg)
+        s.rot, s.trans = np.array(s.rot), np.array(s.trans)
         ops = ideal_ops(s)
         tag = 'Sg%d%s' % (no, '-rhomb' if cc == 'rhombohedral' else '')
         name = None
